@@ -576,6 +576,21 @@ func (e *Exec) sortFunc(x *ssa.Call) {
 	r := e.reach[e.curBlock]
 	e.assume(implies(r, fmt.Sprintf("(forall ((i Int)) (! (=> (and (<= 0 i) (< i %s)) (and (<= 0 (%s i)) (< (%s i) %s) (= %s %s))) :pattern ((%s i))))", n, perm, perm, n, at(nv, "i"), at(old, "("+perm+" i)"), perm)))
 	e.assume(implies(r, fmt.Sprintf("(forall ((i Int) (j Int)) (! (=> (and (<= 0 i) (< i %s) (<= 0 j) (< j %s) (= (%s i) (%s j))) (= i j)) :pattern ((%s i) (%s j))))", n, n, perm, perm, perm, perm)))
+	// instances the solver does not find by itself: the permutation facts at the goal constants, and the declared
+	// invariants of the loops that built the slice at the images of those constants
+	if e.parent == nil {
+		root := e.root()
+		for _, c := range root.goalSk {
+			pc := "(" + perm + " " + c + ")"
+			root.extraInst = append(root.extraInst, pc)
+			e.assume(implies(and(r, "(<= 0 "+c+")", "(< "+c+" "+n+")"), fmt.Sprintf("(and (<= 0 %s) (< %s %s) (= %s %s))", pc, pc, n, at(nv, c), at(old, pc))))
+		}
+		for _, rec := range root.invRecords {
+			if rec.head != e.curBlock && rec.head.Dominates(e.curBlock) {
+				e.assume(implies(rec.reach, e.invExpr(rec.expr, rec.head, rec.cur, true)))
+			}
+		}
+	}
 	e.g.libs["slices.SortFunc (result is a permutation of the input, non-decreasing under the comparison; the comparison must be a total preorder: C01)"] = true
 	// ... and sorted: for i < j the comparison does not put after[i] above after[j].  The comparison is recognised when it is
 	// the method Compare of the element type (method value or thunk); other comparison functions get no order fact.
